@@ -7,7 +7,7 @@ Line protocol for domain `snapmgr` (implementation side: `harness/src/d_snapmgr.
 The protocol layer (`Storage`, sender glue, `DeltaReceiver`, `Manager`) is the model under test; the
 snapshot/delta layer is opaque here: a snapshot is a serial number (equal content ⇔ equal serial,
 0 = empty snapshot) and the request line of every `snap` carries, after a `|` token, what the real
-snapshot layer produced for it: `ok <serial> <crc> <items> <base-serial> <delta bytes>`,
+snapshot layer produced for it: `ok <serial> <crc> <items> <hash of the snapshot's integers> <base-serial> <delta bytes>`,
 `panic`, or `builder-err <name>`.  `Delta::create(a, b)` is then "the recorded bytes for (a, b)" and
 `read_with_delta(a, bytes)` is "the recorded target of (a, bytes)": if the model's `Storage` ever
 picks another base than the implementation did, the lookup fails and the outputs differ.
@@ -24,6 +24,7 @@ structure Info where
   serial : Nat
   crc : Int
   items : Nat
+  shash : Nat
 
 def tableOps (es : List Entry) (is : List Info) : Ops Nat (List UInt8) where
   empty := 0
@@ -42,6 +43,11 @@ def tableOps (es : List Entry) (is : List Info) : Ops Nat (List UInt8) where
 def itemsOf (is : List Info) (s : Nat) : Nat :=
   match is.find? fun i => i.serial == s with
   | some i => i.items
+  | none => 0
+
+def shashOf (is : List Info) (s : Nat) : Nat :=
+  match is.find? fun i => i.serial == s with
+  | some i => i.shash
   | none => 0
 
 structure Sess where
@@ -63,13 +69,13 @@ def doSend (s : Sess) (tick : Int) (serial : Nat) : Sess × String :=
   let base := s.sender.deltaTick.getD (-1)
   match sendSnap ops s.sender tick serial with
   | .panic _ => ({}, "panic")
-  | .ok (st', _, ms) =>
+  | .ok (st', x, ms) =>
     let len := (ms.map fun (m : Msg) => match m with
       | Msg.snap _ _ _ _ _ d => d.length
       | Msg.single _ _ _ d => d.length
       | Msg.empty _ _ => 0).sum
     ({ s with sender := st', msgs := s.msgs ++ ms },
-      s!"sent {tick} base={base} len={len} parts={ms.length} crc={ops.crc serial} first={s.msgs.length}")
+      s!"sent {tick} base={base} len={len} parts={ms.length} crc={ops.crc serial} first={s.msgs.length} h={fnvBytes fnvOffset x.bytes}")
 
 def doAck (s : Sess) (v : Int) : Sess × String :=
   let (st', r, w) := s.sender.setDeltaTick v
@@ -82,7 +88,7 @@ def deliver (s : Sess) (m : Msg) : Sess × String :=
   let line := match res with
     | .error e => s!"err {e.name}"
     | .ok none => "ok none"
-    | .ok (some sn) => s!"ok snap tick={m.tick} crc={ops.crc sn} items={itemsOf s.infos sn}"
+    | .ok (some sn) => s!"ok snap tick={m.tick} crc={ops.crc sn} items={itemsOf s.infos sn} sh={shashOf s.infos sn}"
   ({ s with client := c' }, s!"{line} ack={optStr c'.ackTick} w={wStr ws}")
 
 def step (s : Sess) (toks : List String) : Sess × String :=
@@ -93,13 +99,13 @@ def step (s : Sess) (toks : List String) : Sess × String :=
   | ["new", "mixed-uuid-sizes"] => ({}, "ok")
   | ["snap", t, _] =>
     match parseInt t, hint with
-    | some t, ["ok", serial, crc, items, base, hex] =>
-      match parseNat serial, parseInt crc, parseNat items, parseNat base, parseHex hex with
-      | some serial, some crc, some items, some base, some bytes =>
+    | some t, ["ok", serial, crc, items, shash, base, hex] =>
+      match parseNat serial, parseInt crc, parseNat items, parseNat shash, parseNat base, parseHex hex with
+      | some serial, some crc, some items, some shash, some base, some bytes =>
         let s := { s with entries := { base := base, target := serial, bytes := bytes } :: s.entries,
-                          infos := { serial := serial, crc := crc, items := items } :: s.infos }
+                          infos := { serial := serial, crc := crc, items := items, shash := shash } :: s.infos }
         doSend s t serial
-      | _, _, _, _, _ => (s, "bad-hint")
+      | _, _, _, _, _, _ => (s, "bad-hint")
     | some t, ["panic"] => doSend s t 4000000000
     | some _, ["builder-err", name] => (s, s!"builder-err {name}")
     | _, _ => (s, "bad-args")
